@@ -34,6 +34,8 @@ enum Fault {
     Mixed(usize, Option<usize>),
     /// the type id at (entry, loc) is replaced by a fresh Compact<uint> entry; compact path unset
     CompactRef(usize, Loc),
+    /// a compact type over the unit tuple (`()` is HasCompact) referenced from that site
+    CompactUnitRef(usize, Loc),
     /// ... by a fresh BitSequence entry; bits path unset
     BitsRef(usize, Loc),
     /// ... by an id that does not exist
@@ -233,6 +235,13 @@ fn apply(base: &PortableRegistry, spec: &SettingsSpec, f: &Fault) -> (PortableRe
             spec.compact_path = None;
             (reg, spec, ErrKind::CompactPathNone, Some(c))
         }
+        Fault::CompactUnitRef(k, loc) => {
+            let u = push_type(&mut reg, vec![], TypeDef::Tuple(scale_info::TypeDefTuple { fields: vec![] }));
+            let c = push_type(&mut reg, vec![], TypeDef::Compact(TypeDefCompact { type_param: sym(u) }));
+            set_ref(&mut reg, *k, loc, c);
+            spec.compact_path = None;
+            (reg, spec, ErrKind::CompactPathNone, Some(c))
+        }
         Fault::BitsRef(k, loc) => {
             let u = {
                 let mut found = None;
@@ -295,6 +304,7 @@ fn all_faults(reg: &PortableRegistry) -> Vec<Fault> {
     }
     for (k, loc) in ref_sites(reg) {
         out.push(Fault::CompactRef(k, loc.clone()));
+        out.push(Fault::CompactUnitRef(k, loc.clone()));
         out.push(Fault::BitsRef(k, loc.clone()));
         out.push(Fault::Dangling(k, loc));
     }
@@ -511,6 +521,7 @@ impl Property for C10 {
                         Fault::Id(..) => "id_fault",
                         Fault::Mixed(..) => "mixed_fields_fault",
                         Fault::CompactRef(..) => "compact_path_fault",
+                        Fault::CompactUnitRef(..) => "compact_unit_path_fault",
                         Fault::BitsRef(..) => "bits_path_fault",
                         Fault::Dangling(..) => "dangling_id_fault",
                     };
